@@ -474,6 +474,16 @@ def run_check(prop, tier, seed, repo, jobs=None, only=None, verbose=False, exact
                     except Exception:      # noqa: BLE001
                         pass
                 ex.shutdown(wait=False, cancel_futures=True)
+                # scratch directories of the workers that were stopped (created by this run only)
+                import glob
+                import shutil
+                import tempfile
+                for dd in glob.glob(os.path.join(os.environ.get("TMPDIR", tempfile.gettempdir()), "evoverif_%s_*" % prop.lower())):
+                    try:
+                        if os.path.getmtime(dd) >= t0 - 1:
+                            shutil.rmtree(dd, ignore_errors=True)
+                    except OSError:
+                        pass
                 break
     results.sort(key=lambda d: d["case"])
     return finish(prop, tier, seed, h, cases, results, time.time() - t0)
